@@ -34,7 +34,13 @@ class UniqueLoggingFilter(logging.Filter):
 
 
 logger_unique = logging.getLogger("halmos.unique")
-logger_unique.addFilter(UniqueLoggingFilter())
+unique_filter = UniqueLoggingFilter()
+logger_unique.addFilter(unique_filter)
+
+
+def reset_unique_logs() -> None:
+    """Forget the messages seen so far (duplicates are suppressed within a test, not across tests)"""
+    unique_filter.records.clear()
 
 
 def logger_for(allow_duplicate=True) -> logging.Logger:
